@@ -104,7 +104,21 @@ theorem plainError_ctx (c : Conn) : CtxSame c c.plainError.1 := by
   split
   · exact CtxSame.refl c
   · split
-    · split <;> exact ctxSame_of_eq rfl rfl
+    · split
+      · exact CtxSame.refl c
+      · cases hf : c.db.takeFault .rollback with
+        | mk o db1 =>
+          cases o with
+          | some k =>
+            cases k with
+            | err => exact ctxSame_of_eq rfl rfl
+            | disc =>
+              have h1 : CtxSame c ({ c with db := db1 } : Conn) := ctxSame_of_eq rfl rfl
+              exact h1.trans (discError_ctx _)
+            | kbi =>
+              have h1 : CtxSame c ({ c with db := db1 } : Conn) := ctxSame_of_eq rfl rfl
+              exact h1.trans (discError_ctx _)
+          | none => exact ctxSame_of_eq rfl rfl
     · exact CtxSame.refl c
 
 theorem dbapiError_ctx (c : Conn) (k : FKind) : CtxSame c (c.dbapiError k).1 := by
@@ -189,7 +203,9 @@ theorem rootDeactivate_ctx (c : Conn) (h : Nat) : CtxSame c (c.rootDeactivate h)
 theorem rollbackImpl_ctx (c : Conn) : CtxSame c c.rollbackImpl.1 := by
   unfold Conn.rollbackImpl
   split
-  · exact dbapiCall_ctx c .rollback DB.rollback
+  · split
+    · exact CtxSame.refl c
+    · exact dbapiCall_ctx c .rollback DB.rollback
   · exact CtxSame.refl c
 
 theorem rootCloseFinally_ctx (c : Conn) (h : Nat) (b : Bool) : CtxSame c (c.rootCloseFinally h b) := by
